@@ -142,7 +142,10 @@ func genC06(g engine.G) *engine.Case {
 	var sc *engine.Scenario
 	o := engine.DefaultFuncOpts()
 	o.AllowOnce, o.AllowPosRepeat, o.FailP = true, true, 10
-	switch g.Int(0, 5) {
+	switch g.Int(0, 6) {
+	case 6:
+		// labels containing "/" + type strings, and non-identifier names
+		sc = engine.GenHostile(g, o)
 	case 0:
 		sc = engine.GenUniform(g, o, true, true)
 	case 1:
